@@ -17,7 +17,10 @@ META = dict(
          "borrows, running/expired Dutch and English auctions, oracle down, inactive prices, auction types disabled, missing token-mint data, emptied collector, full "
          "utilisation, ESM executed, liquidity batches with expired orders, gauges due, V1 hooks) every unit of the real BeginBlocker/EndBlocker is enumerated: for sampled "
          "(quick) or all (thorough) k the k-th store access under the unit's context panics; TLC compares the store digest with the run in which the unit was skipped and "
-         "with the run in which it had no effect, requires the hook to return, and checks naturally failing units and per-item steps (masked-item reference) the same way.",
+         "with the run in which it had no effect, requires the hook to return, and checks naturally failing units and per-item steps (masked-item reference) the same way. Liquidation steps (one vault / one borrow, V1 and V2) "
+         "are additionally judged by facets around the module's begin blocker run alone: seized, locked-vault written, auction started must be all true or all false - also when an inner "
+         "step fails by itself (auction parameters missing, auction type off, price inactive at the auction start, collateral lent out). Hook loops are driven with real work in two CDP apps "
+         "(both white-listed for V1 and V2 liquidation, liquidity in two apps); hooks run while a state's history is produced are judged like plain blocks.",
     note="Trusted: TLC/Json module, sim.Digest over all DeFi stores + bank, the observation of unit failures through the wrapper's error log line, the item masks "
          "(borrow flagged liquidated / vault collateral inflated) used only for reference runs. Faults are injected at gas-metered store accesses only.",
     design_ref="4 C15",
